@@ -197,7 +197,8 @@ PROPS = {
              "pairs callees return); (d) each checked_/saturating_/wrapping_ variant delegates to the overflowing_ root of "
              "its family or shares an arithmetic kernel with it, and saturates to the right bound (R-VARIANT); (e) in overflow-"
              "checked (debug) builds no add/sub/neg entry reaches an undischarged arithmetic-overflow assertion (R-TOTAL/"
-             "overflow-checks)",
+             "overflow-checks); (f) each of the 16 + - Neg Sum operator impls forwards to its inherent method with the "
+             "operands in order (R-FACADE/operators)",
              "that the limb-wise carry chain computes the sum (e.g. seeded C01-carrying_add-compare is missed)",
              rules_with_canon("C01", {"src/add.rs"}, lambda ctx: flag_for({"src/add.rs"}, ["add", "sub", "neg"])(ctx) + operators_for("C01")(ctx)),
              ["that the limb-wise carry chain computes the sum/difference", "abs_diff's value"]),
@@ -207,7 +208,8 @@ PROPS = {
              "carries reach its overflow (R-FLAG), the indicator is not constant where it must vary (R-FLAG/flag-range); (d) "
              "variants delegate to overflowing_mul or share its kernels (R-VARIANT); (e) bounds checks and slice ranges "
              "inside the multiplication kernels (addmul, addmul_n, addmul_nx1, cmp) are in scope and all discharged, and no "
-             "entry reaches an undischarged overflow assertion in overflow-checked builds (R-TOTAL/overflow-checks)",
+             "entry reaches an undischarged overflow assertion in overflow-checked builds (R-TOTAL/overflow-checks); (f) the 8 "
+             "* / Product operator impls forward to the inherent method (R-FACADE/operators)",
              "products, addmul's truncation bookkeeping (seeded C02-addmul-truncated-row-flag is missed), Hensel lifting",
              rules_with_canon("C02", {"src/mul.rs"}, lambda ctx: flag_for({"src/mul.rs", "src/algorithms/mul.rs"}, ["mul"])(ctx) + operators_for("C02")(ctx)),
              ["products", "trimming / truncation bookkeeping in addmul", "Hensel lifting"]),
@@ -216,7 +218,8 @@ PROPS = {
              "propagated through div_rem/wrapping_div/Div); (b) div_rem, wrapping_div/rem, div_ceil call the kernel on every "
              "path to every return, so a zero divisor reaches the documented panic (R-GUARD/zero-divisor); (c) no todo!/"
              "unimplemented! is reachable from any public item of the crate (R-UNIMPL); (d) no overflow assertion outside "
-             "the division kernels is undischarged in overflow-checked builds (R-TOTAL/overflow-checks, 1 reviewed row)",
+             "the division kernels is undischarged in overflow-checked builds (R-TOTAL/overflow-checks, 1 reviewed row); (e) the "
+             "12 / % operator impls forward to the inherent method with dividend and divisor in order (R-FACADE/operators)",
              "the Euclidean contract; that no non-zero divisor panics inside the Knuth kernels (C14, not applicable)",
              rules_C03, ["the Euclidean contract", "no non-zero divisor panics (kernel indices are run-time values)",
                          "values of div_ceil / next_multiple_of"]),
@@ -242,7 +245,9 @@ PROPS = {
              "window-discard); (d) a Uint-typed shift amount is never used through its low limb without a whole-value "
              "check (R-LOWLIMB); (e) variants delegate to overflowing_shl resp. overflowing_shr (R-VARIANT), whose "
              "indicators can be false for BITS == 0 and are not constant otherwise (R-FLAG/flag-range); (f) no shift / "
-             "rotate entry reaches an undischarged overflow assertion in overflow-checked builds (R-TOTAL/overflow-checks)",
+             "rotate entry reaches an undischarged overflow assertion in overflow-checked builds (R-TOTAL/overflow-checks); "
+             "(g) the 88 << >> operator impls forward to the inherent shift of their own direction with value and amount "
+             "in order (R-FACADE/operators)",
              "bit positions, rotation arithmetic, sign fill; exactness of the flag beyond the structural clauses (seeded "
              "C05-shr-flag-trailing_zeros is missed)", rules_C05,
              ["bit positions", "rotation arithmetic", "sign fill", "exactness of the lost-bit flag"]),
@@ -250,7 +255,10 @@ PROPS = {
              "dominate the limb accesses (R-TOTAL); (b) not/bit-ops/set_bit keep values canonical (R-CANON rows with "
              "guard / callee-identity side conditions); (c) Uint::byte panics exactly for index >= BYTES in every "
              "configuration (R-GUARD/byte); (d) overflow assertions of the counting functions in overflow-checked builds: "
-             "discharged or one of 7 reviewed arithmetic rows (R-TOTAL/overflow-checks)", "every counting function's value, "
+             "discharged or one of 7 reviewed arithmetic rows (R-TOTAL/overflow-checks); (e) each of the 8 counting functions "
+             "can return 0 and can return BITS (BYTES for byte_len) in every configuration: the interval over-approximation "
+             "of its return value contains both extremes (R-EXTREMES); (f) the 20 ! & | ^ operator impls forward to the "
+             "inherent operation (R-FACADE/operators)", "every counting function's value between the extremes, "
              "most_significant_bits",
              rules_with_canon("C06", {"src/bits.rs"}, lambda ctx: [guard.byte_panics(ctx), extremes.run(ctx)] + operators_for("C06")(ctx)),
              ["values of the counting functions", "most_significant_bits", "reverse_bits"]),
@@ -304,7 +312,9 @@ PROPS = {
              "order the format defines and agree; SSZ length reporters evaluate to BYTES in every configuration; postgres "
              "accepts/to_sql/from_sql handle the same 17 column types (R-CODEC); in each of the six SCALE compact modes "
              "the value range the encoder emits is contained in the range the decoder accepts (R-CODEC/compact-modes: "
-             "intervals of bit_len per encoder arm vs intervals of the decoded integer per decoder arm); (b) concrete pairs in Pod/ark/primitive-"
+             "intervals of bit_len per encoder arm vs intervals of the decoded integer per decoder arm); a header byte the "
+             "RLP encoders build by hand as 0x80 + n has n <= 55 in every configuration up to 512 bits (R-CODEC/rlp-header, "
+             "interval of n where the byte is computed); (b) concrete pairs in Pod/ark/primitive-"
              "types impls are well-formed (R-WF); (c) encoders and length/size-hint functions reach no undischarged panic "
              "site (R-TOTAL) and, in overflow-checked builds, no undischarged arithmetic-overflow assertion in any "
              "configuration incl. widths above 256 bits (R-TOTAL/overflow-checks: this is what decides defect F16, the "
@@ -346,10 +356,11 @@ PROPS = {
              "num-integer, Sum/Product, Zeroize) forwards to the delegate the oracle table names: resolved delegate "
              "identity, argument provenance parameter i -> argument i (commutative swaps allowed only for commutative "
              "operations), no self-recursion, result returned through wrappers only; a composite facade re-implemented on "
-             "limbs must be total and canonical like the composition it replaces (R-FACADE); (b) subtle ct_gt/ct_lt/"
-             "ct_eq/conditional_select use the primitive of their own direction on limbs zipped from (self, rhs) in that "
-             "order (R-SIBLING); (c) no facade has a panic source of its own beyond reviewed rows where its signature "
-             "cannot express the failure (R-TOTAL, own sites)", "that the inherent method is right; constant-time-ness",
+             "limbs must be total and canonical like the composition it replaces (R-FACADE); (b) subtle: the strict comparisons inside "
+             "ct_gt/ct_lt are not all oriented the wrong way round, limbs compared or selected as the fields of one zip item "
+             "come from identically adapted iterators, ct_eq depends on both operands, conditional_select is not provably "
+             "(b, a) -- necessary conditions only; an unrecognised shape (e.g. a borrow chain) is not decided (R-SIBLING); (c) no facade has a panic source of its own beyond reviewed rows where its signature "
+             "cannot express the failure (R-TOTAL, own sites)", "that the inherent method is right; the value of a re-implemented constant-time comparison; constant-time-ness",
              rules_C20, ["that the inherent methods are right", "constant-time-ness"]),
 }
 
